@@ -239,7 +239,7 @@ func c18RunChild(dir string, chunk uint32, seed uint64, n, delayUs int, extraEnv
 }
 
 func c18CrashPart(r *verifkit.Run) {
-	nCases := r.N(24, 500)
+	nCases := r.N(24, 300)
 	workers := r.N(6, 10)
 	base := r.SubSeed("crash")
 	r.Parallel(workers, "crash", func(w *verifkit.Worker) {
